@@ -274,6 +274,20 @@ def _payloads(tier):
     return jobs
 
 
+def _composed(ctx):
+    """what the reduced run and its unfolding rest on, decided by C34's and C32's rules and evaluated here because the
+    exactness of the reduction fails without them: the wall objects the reduced run gets (one full plane per electric
+    axis, also with two or three of them) and which detectors are mirror-extended afterwards (the clipped ones only)."""
+    from . import c32, c34
+
+    n0 = len(ctx.obligations)
+    c34._walls(ctx)
+    c32._dispatch(ctx)
+    for o in ctx.obligations[n0:]:
+        o.rule = "R33.4"
+    ctx.require_count("R33.4 composed rules", len(ctx.obligations) - n0, 5)
+
+
 def run(ctx):
     from .. import par
 
@@ -281,6 +295,7 @@ def run(ctx):
         ctx.unit(ctx.index.function(q).where())
     jobs = _payloads(ctx.tier)
     err = par.run_jobs(ctx, "sa.checks.c33", "_job", jobs, [f"{j[0]}:{j[1]}" for j in jobs])
+    _composed(ctx)
     if err:
         raise AnalysisError(err)
     ctx.require_count("C33", len(ctx.obligations), 24)
